@@ -141,10 +141,15 @@ class Contract:
                 return m
         return self.loops
 
-    def ghost(self, name, sort, init=None):
+    def ghost(self, name, sort, init=None, assume=None):
+        """A ghost local.  `init`: its initial value (an expression); `assume`: a formula describing its
+        initial value when no expression can (e.g. "the map is empty"): ghost state is the prover's own, so
+        choosing its initial value is sound as long as such a value exists."""
         self.ghosts[name] = sort
         if init is not None:
             self.ghost_init[name] = init
+        if assume is not None:
+            self.ghost_assume = getattr(self, "ghost_assume", []) + [assume]
         return self
 
     def after(self, stmt_text, *assigns):
